@@ -33,7 +33,7 @@ RULE = ('M1: every sequence of <=2 (quick) / <=3 (thorough) AddSegment/RemoveSeg
         'non-trivial = at least one observed state with a segment and both inside and outside probes; distinct = distinct script text')
 TRUSTED = ['model: coq/Tp/TpModel.v (transcription of timeperiod.cpp 41-301), coq/Tp/TpCal.v (transcription of legacytimeperiod.cpp '
            'IsInTimeRange/FindNthWeekday/ProcessTimeRange*/ScriptFunc on the parsed form), coq/Tp/TpParse.v (transcription of ParseTimeRange/ParseTimeSpec/ProcessTimeRanges on byte strings)',
-           'which of the two known forms IsInTimeRange\'s day number and ScriptFunc\'s day loop have is read from the source text by tools/facts_c08.py (string match on the comment-stripped function bodies)',
+           'which of the two known forms IsInTimeRange\'s day number, ScriptFunc\'s day loop and UpdateRegion / Merge (early return, or merge of the referenced periods cut off at valid_end in every round) have is read from the source text by tools/facts_c08.py (string match on the comment-stripped function bodies)',
            'the generator prints string and parsed form; the parsed form the model and the oracle use comes from the parser model applied to the string; the printed parsed form is only cross-checked (oracle class parse-roundtrip)',
            "libc's time zone database: the offset table given to the model is computed from /usr/share/zoneinfo by Python and compared with localtime_r by vdrive in every case (tp_tz)",
            'mktime for local times inside a skipped/repeated DST hour is modelled after observed glibc behaviour (compared in family m2-mktime, libc primed with the local time two days earlier) and not used by any theorem (range boundaries are restricted to local times that exist once)']
@@ -1109,6 +1109,22 @@ def directed_rolling():
                 lines += ['now %d' % t, 'tp_timer']
             lines += ['tp_now name=b', 'tp_now name=c']
             out.append({'lines': lines, 'tags': {'family': 'm2-directed-start-order', 'zone': zn, 'roll_order': order}})
+    # a merge must not move valid_end: a = "09:00-10:30,22:00-02:00" excluding b = "10:45-11:00", two days of 30-minute rounds.
+    # a's valid_end lies two hours past midnight (the wrapping range), b computes the day after next earlier than a does; a
+    # merge that widened a's valid_end to b's 11:00 would make a's next own computation start there and drop 09:00-10:30
+    # (the first draft of the stale-reference repair did exactly that: is_inside = 0 at 09:30 two days later)
+    for order in ('ab', 'ba'):
+        trs = {'a': [(9 * 3600, 10 * 3600 + 1800), (22 * 3600, 2 * 3600)], 'b': [(10 * 3600 + 2700, 11 * 3600)]}
+        lines = ['now %d' % n0, tz_line(zn, n0 - 5 * 86400, n0 + 9 * 86400),
+                 'tp_pts ' + ','.join(str(x) for x in roll_probes(zn, n0 - 3600, n0 + 4 * 86400, trs['a'] + trs['b']))]
+        lines += [{'a': 'tp_new name=a prefer=1 inc=- exc=b', 'b': 'tp_new name=b'}[nm] for nm in order]
+        lines += [range_line(nm, s_, a_, trs[nm], None) for nm in 'ab'] + ['tp_start name=%s' % nm for nm in order]
+        t = n0
+        while t < n0 + 47 * 3600:
+            t += 1800
+            lines += ['now %d' % t, 'tp_timer']
+        lines += ['now %d' % (n0 + 47 * 3600 + 1800), 'tp_timer', 'tp_now name=a']
+        out.append({'lines': lines, 'tags': {'family': 'm2-directed-merge-keeps-valid-end', 'zone': zn, 'roll_order': order}})
     for order in ('abc', 'acb', 'bac', 'bca', 'cab', 'cba'):
         trs = {'a': [(9 * 3600, 10 * 3600)], 'b': [(0, 86400)], 'c': [(12 * 3600, 13 * 3600)]}
         lines = ['now %d' % n0, tz_line(zn, n0 - 5 * 86400, n0 + 9 * 86400),
